@@ -76,7 +76,7 @@ func (r *Runner) swBegun(owner int, e Event) bool {
 	if owner == 2 {
 		ch = r.St.G2Ev
 	}
-	g, ok := r.expect(ch, "dir:remove")
+	g, ok := r.dirGate(ch, "dir:remove")
 	if !ok {
 		return false
 	}
@@ -400,11 +400,18 @@ func (r *Runner) Step(line string) {
 			return
 		}
 		r.swPark.Resume(nil)
-		e, ok := r.expect(ch, dirOps[r.swStage+1])
+		e, ok := r.dirGate(ch, dirOps[r.swStage+1])
 		if !ok {
 			return
 		}
-		r.swStage++
+		switch {
+		case r.Model != nil:
+			r.swStage++
+		case e.Kind == "sw-end":
+			r.swStage = 6
+		case r.swStage < 5: // oracle-only: the writer ends when it says so, whatever it did before
+			r.swStage++
+		}
 		r.swPark = &e
 		r.record(line, "ok", r.model(line))
 	case "sw.done":
